@@ -77,6 +77,20 @@ def rule_or_reindex(repo, col):
                             good.add(n)
             sn = cfg.node(st)
             leak = cfg.path_avoiding(sn, cfg.exit, good) if sn else True
+            if leak:
+                # the rebuild may pass None through a variable: the axis
+                # interpreter evaluates the argument per specialisation
+                from .rules_axis import run_all
+                verdicts = [m for m in run_all(repo)[0]
+                            if m['q'] == q and m['kind'] == 'REINDEX' and
+                            m['role'] == 'reindex-after:%s' % field]
+                if verdicts and not any(m['bad'] for m in verdicts) and \
+                        any(m['ok'] for m in verdicts):
+                    leak = False
+                elif not verdicts:
+                    col.unknown(rule, rel, q, 'reindex-after:%s' % field,
+                                st, 'rebuild call not resolved')
+                    continue
             col.check(not leak, rule, rel, q, 'reindex-after:%s' % field, st,
                       'every path from the store rebuilds the %s lookup'
                       % field.strip('_').replace('_ids', ''),
